@@ -56,6 +56,8 @@ CONSTANTS PSeq,          \* producers, in a fixed order              <<"p1","p2"
           InactivePen, EmergencyPen, IllegalPen,
           MinLock, MaxLock,   \* DPoSV2Min/MaxVotesLockTime
           DepV1, DepV2,  \* MinDepositAmount, MinDPoSV2DepositAmount
+          RegExtra,      \* what a registration pays into the deposit address above the minimum (so that
+                         \* totalAmount and the locked depositAmount differ from the first block on)
           V1Amt,         \* amount of a v1 vote output
           StakeAmts, TopUps, VoteAmts, LockSpans,
           MaxRights, MaxUtxo,
@@ -346,7 +348,7 @@ Ex(S_, c, h) ==
   IN
   CASE c.k = "reg" ->
          SP([NoProd EXCEPT !.st = "Pending", !.maps = {"Pending"}, !.regH = h, !.dep = c.x,
-                           !.total = c.x, !.su = c.y, !.ident = IF c.y # 0 THEN "V2" ELSE "V1"])
+                           !.total = c.x + RegExtra, !.su = c.y, !.ident = IF c.y # 0 THEN "V2" ELSE "V1"])
     [] c.k = "upd" ->
          SP([r EXCEPT !.nick = 1 - c.o.nick,
                       !.su = IF c.x = 1 THEN SU ELSE c.o.su,
@@ -503,7 +505,7 @@ RECURSIVE UtxoAfter(_, _)
 UtxoAfter(U, txs) ==
   IF txs = <<>> THEN U
   ELSE LET it == Head(txs) IN
-       UtxoAfter(CASE it.k = "Reg" -> [U EXCEPT ![it.p] = <<IF it.p \in V2Reg THEN DepV2 ELSE DepV1>>]
+       UtxoAfter(CASE it.k = "Reg" -> [U EXCEPT ![it.p] = <<(IF it.p \in V2Reg THEN DepV2 ELSE DepV1) + RegExtra>>]
                    [] it.k = "TopUp" -> [U EXCEPT ![it.p] = Append(@, it.x)]
                    [] OTHER -> U, Tail(txs))
 \* two RetDep of one producer: masks are disjoint, remove the union at once
@@ -574,6 +576,7 @@ BlockStep(items) ==
              /\ UNCHANGED nrb
              /\ log' = Append(log, [act |-> "Block", h |-> h, items |-> items, nid |-> nid,
                                     pre |-> pre, dev |-> dev, why |-> why, applied |-> (pre /\ ~dev),
+                                    ck |-> [i \in 1..Len(cs) |-> <<cs[i].k, IF cs[i].p # "-" THEN cs[i].p ELSE cs[i].a>>],
                                     st |-> Proj(IF pre /\ ~dev THEN S2 ELSE S)])
 
 Blocks(h, O) ==
